@@ -370,6 +370,7 @@ Section Frame.
       + unfold push. destruct (fresh_like _ (nxt w)). simpl. apply nth_app_old. exact Hj.
       + reflexivity.
       + reflexivity.
+      + reflexivity.
     - cbn [stepi target] in *. unfold geti. destruct (nth i (pl w) (Run.dummy, dummy_it)) as [a t].
       destruct (sub_agg a p1), (sub_it t p1); try reflexivity. simpl. apply nth_seti. congruence.
   Qed.
